@@ -41,6 +41,9 @@ from geneticengine.solutions.individual import Individual
 
 def make_problem(ff, mini, multi):
     if multi:
+        if len(set(mini)) == 1:
+            # all components go the same way: declare it the lazy way, with ONE bool (the list is built at the first evaluation)
+            return MultiObjectiveProblem(minimize=bool(mini[0]), fitness_function=ff)
         return MultiObjectiveProblem(minimize=list(mini), fitness_function=ff)
     return SingleObjectiveProblem(fitness_function=ff, minimize=mini[0])
 
@@ -229,7 +232,9 @@ def evaluator_sessions(R, batch, tier, stats):
         fd, logpath = tempfile.mkstemp(prefix="fflog", dir=os.environ.get("VERIF_TMP", None))
         os.close(fd)
 
-        def ff(prog, logpath=logpath, tab=tab, multi=multi):
+        numkind = sidx % 5
+
+        def ff(prog, logpath=logpath, tab=tab, multi=multi, numkind=numkind):
             v = prog_value(prog)
             ret = tab[v % len(tab)]
             # a value-dependent delay perturbs the completion order of pool workers
@@ -237,7 +242,10 @@ def evaluator_sessions(R, batch, tier, stats):
             _t.sleep(0.03 * ((7 - v) % 4))
             with open(logpath, "a") as f:
                 f.write(json.dumps({"v": v, "ret": ret, "pid": os.getpid()}) + "\n")
-            return [float(x) for x in ret] if multi else float(ret[0])
+            # fitness functions often hand back numpy scalars (counts, pixel errors): unsigned, narrow or boolean-like
+            import numpy as _np
+            conv = [float, _np.uint8, _np.int64, _np.float32, int][numkind]
+            return [conv(x) for x in ret] if multi else conv(ret[0])
 
         problem = make_problem(ff, mini, multi)
         size = R.choice([1, 2, 3, 5])
